@@ -2,6 +2,8 @@
 
 package bal_gslb
 
+import "github.com/bfenetworks/bfe/bfe_balance/bal_slb"
+
 // VerifC14State exposes what BalanceGslb.Init computed (C14: sub-cluster order is independent of map iteration).
 func VerifC14State(bal *BalanceGslb) (names []string, weights []int, total int, single bool, avail int) {
 	for _, s := range bal.subClusters {
@@ -9,4 +11,14 @@ func VerifC14State(bal *BalanceGslb) (names []string, weights []int, total int, 
 		weights = append(weights, s.weight)
 	}
 	return names, weights, bal.totalWeight, bal.single, bal.avail
+}
+
+// VerifC14Inventory returns, per sub-cluster in the balancer's order, the backends' (AddrInfo, weight) (C14).
+func VerifC14Inventory(bal *BalanceGslb) (addrs [][]string, weights [][]int) {
+	for _, s := range bal.subClusters {
+		a, w := bal_slb.VerifC14Inventory(s.backends)
+		addrs = append(addrs, a)
+		weights = append(weights, w)
+	}
+	return
 }
